@@ -5,7 +5,7 @@ namespace Driver.Registry
 open Evl.Registry Driver
 
 def parseBeh : String → Option Beh
-  | "pass" => some .pass | "replace" => some .replace | "drop" => some .drop | "err" => some .err
+  | "pass" => some .pass | "replace" => some .replace | "drop" => some .drop | "err" => some .err | "errev" => some .err
   | _ => none
 
 def parsePol : String → Option Pol
